@@ -447,6 +447,22 @@ class Machine:
         f = S.compile_spec(e, self.variables, self.order)
         return int(f(*[h.pins.get(n, 0) for n in self.order]))
 
+    def resolved_value(self, h, e):
+        """Replacement frontends answer a query whose expression their replacements resolve to a constant without
+        consulting the solver (ConcreteHandlerMixin on top of ReplacementFrontend._concrete_value), by design.  When the
+        reference says 'unsatisfiable with these extra constraints', such an answer is vacuous rather than wrong.
+        The expression counts as resolved if literal `var == const` constraints pin all its variables, or if it takes
+        exactly one value over the solver's own models."""
+        if h.cls not in ("SolverReplacement", "SolverReplacementVSA") or not isinstance(e, list):
+            return None
+        pv = self.pinned_value(h, e)
+        if pv is not None:
+            return pv
+        V = h.ref.values(e)
+        if len(V) == 1:
+            return next(iter(V))
+        return None
+
     def op_add(self, op):
         h = self.H(op)
         self.used_specs = list(op["cs"]) + h.lineage
@@ -554,7 +570,7 @@ class Machine:
         vals = [int(v) for v in val]
         if sat is False and self._nonsymbolic(a):
             return ["concrete", vals]
-        if sat is False and vals == [self.pinned_value(h, e)]:
+        if sat is False and vals == [self.resolved_value(h, e)]:
             return ["pinned", vals]
         if len(vals) > n:
             self.bad("too-many-results", h, op, e=e, n=n, got=vals)
@@ -594,7 +610,7 @@ class Machine:
         tups = [tuple(int(x) for x in t) for t in val]
         if sat is False and all(self._nonsymbolic(a) for a in as_):
             return ["concrete", tups]
-        if sat is False and tups == [tuple(self.pinned_value(h, e) for e in es)]:
+        if sat is False and tups == [tuple(self.resolved_value(h, e) for e in es)]:
             return ["pinned", tups]
         if len(tups) > n:
             self.bad("too-many-results", h, op, es=es, n=n, got=tups)
@@ -641,7 +657,7 @@ class Machine:
         if opt is None:
             if self._nonsymbolic(a):
                 return ["concrete", r]
-            pv = self.pinned_value(h, e)
+            pv = self.resolved_value(h, e)
             if pv is not None and r % (1 << w) == pv:
                 return ["pinned", r]
             if mode == "contain":
@@ -694,8 +710,8 @@ class Machine:
         if sat is False and self._nonsymbolic(a) and (not isinstance(v, list) or self._nonsymbolic(va)):
             return ["concrete", got]
         if sat is False:
-            pe = self.pinned_value(h, e)
-            pv = v if not isinstance(v, list) else (int(va.concrete_value) if self._nonsymbolic(va) else self.pinned_value(h, v))
+            pe = self.resolved_value(h, e)
+            pv = v if not isinstance(v, list) else (int(va.concrete_value) if self._nonsymbolic(va) else self.resolved_value(h, v))
             if pe is not None and pv is not None and got == (pe == pv):
                 return ["pinned", got]
         if mode == "exact":
@@ -854,7 +870,12 @@ class Machine:
         st, val = res
         if st != "ok":
             self.unexpected(h, op, val)
-        self.handles.append(Handle(val, newref, h.cls, h.kw, lineage, h.mode, "combine"))
+        nh = Handle(val, newref, h.cls, h.kw, lineage, h.mode, "combine")
+        for x in group:
+            for k, v in x.pins.items():
+                nh.pins.setdefault(k, v)
+            nh.added.extend(x.added)
+        self.handles.append(nh)
         return ["h", len(self.handles) - 1]
 
     def op_split(self, op):
@@ -889,7 +910,7 @@ class Machine:
         cb = {}
         for x in before:
             cb[x] = cb.get(x, 0) + 1
-        missing = [x for x in cb if cnt.get(x, 0) < cb[x]]
+        missing = [x for x in cb if cnt.get(x, 0) == 0]
         dup = [x for x in cb if cnt.get(x, 0) > cb[x]]
         if missing or dup:
             self.bad("split-conjuncts-differ", h, op, before=len(before), after=len(after), missing=len(missing),
@@ -962,11 +983,29 @@ class Machine:
             tracked.update(c.hash() for c in h.solver.constraints)
         except Exception:  # noqa: BLE001
             pass
+        tables = None
         for el in core:
             if not isinstance(el, Base) or not isinstance(el, Bool):
                 self.bad("core-element-not-a-constraint", h, op, element_type=type(el).__name__, size=len(core))
             if el.hash() not in tracked:
-                self.bad("core-element-not-tracked", h, op, element=str(el)[:120], size=len(core))
+                # claripy may hand back a re-abstracted form of an added constraint (`0 >s a` for `a <s 0`, `a == 5` for
+                # `10 + a == 15`): accept an element that has the truth table of an added constraint or conjunct
+                if tables is None:
+                    uni = self.ref0().universe
+                    tables = set()
+                    def conj(c):
+                        yield c
+                        if c[0] == "band":
+                            for x in c[1:]:
+                                yield from conj(x)
+
+                    for c in h.lineage:
+                        for cc in conj(c):
+                            f = S.compile_spec(cc, self.variables, self.order)
+                            tables.add(tuple(bool(f(*m)) for m in uni))
+                mine = tuple(self._concrete_truth(el, m) for m in self.ref0().universe)
+                if mine not in tables:
+                    self.bad("core-element-not-tracked", h, op, element=str(el)[:120], size=len(core))
         # conjunction unsatisfiable: evaluate each element on all assignments through claripy's concrete backend
         if len(core) == 0:
             self.bad("core-empty-on-unsat", h, op)
@@ -990,8 +1029,8 @@ class Machine:
                 rep[cl.BoolS(n, explicit_name=True).hash()] = cl.BoolV(bool(v))
             else:
                 rep[cl.BVS(n, w, explicit_name=True).hash()] = cl.BVV(v, w)
-        r = cl.replace_dict(ast, rep)
         try:
+            r = cl.replace_dict(ast, rep)
             return bool(cl.backends.concrete.eval(r, 1)[0])
         except ZeroDivisionError:
             # SMT-LIB defines division by zero; claripy's concrete backend does not: cannot judge this element here
